@@ -49,6 +49,8 @@ func init() {
 			{ID: "R11w", Floor: 3, Doc: "car index records, for every section it copies, the offset the section has in the output (= R19d)", Run: ruleR19d},
 			{ID: "R11x", Floor: 1, Doc: "the payload size StorageCar.Finalize hands to store.Finalize is read after the lock was taken", Run: ruleR11x},
 			{ID: "R11y", Floor: 1, Doc: "multiWidthIndex.Load builds one bucket per digest width: the groups it ranges over are keyed by an integer (the width), so no two groups address the same bucket", Run: ruleR11y},
+			{ID: "R11z", Floor: 1, Doc: "the insertion index refuses no record for the length of its digest: Load tests the decoded digest for nil only, so the empty identity CID loads like everywhere else", Run: ruleR11z},
+			{ID: "R11B", Floor: 1, Doc: "a compact bucket built in memory is exactly width x len bytes (= R03x)", Run: ruleR03x},
 			{ID: "R11q", Floor: 1, Doc: "a decoded bucket has exactly as many records as the bytes read for it hold (= R09f)", Run: ruleR09f},
 		},
 	})
@@ -974,6 +976,38 @@ func ruleR11i(c *Ctx, r *Report) {
 				}
 				if at == nil || !(at == in.Block() || inCycleWith(fn, at, in.Block())) {
 					bad = fmt.Sprintf("the pointer stored at %s refers to an object created outside the loop (%s at %s): every iteration stores the same address, so all entries alias the one decoded last", c.Pos(in.Pos()), o.Kind, c.Pos(o.Val.Pos()))
+				}
+				// the fresh object must not be built around a map or pointer made outside the loop
+				// (`&T{m: shared}`): the entries then share that map
+				if al, isAlloc := o.Val.(*ssa.Alloc); isAlloc && bad == "" {
+					for _, rf := range *al.Referrers() {
+						fa, ok := rf.(*ssa.FieldAddr)
+						if !ok {
+							continue
+						}
+						for _, st := range storesTo(fa) {
+							switch st.Val.Type().Underlying().(type) {
+							case *types.Map, *types.Pointer:
+							default:
+								continue
+							}
+							for _, o2 := range origins(st.Val, originOpts{}) {
+								var at2 *ssa.BasicBlock
+								switch v := o2.Val.(type) {
+								case *ssa.Alloc:
+									at2 = v.Block()
+								case ssa.Instruction:
+									at2 = v.Block()
+								}
+								if o2.Kind == "param" || o2.Kind == "const" {
+									continue
+								}
+								if at2 == nil || !(at2 == in.Block() || inCycleWith(fn, at2, in.Block())) {
+									bad = fmt.Sprintf("the object stored at %s is new in every iteration but is built around a %s made outside the loop (%s): all entries share it, and groups with the same inner key overwrite each other", c.Pos(in.Pos()), st.Val.Type().String(), c.Pos(st.Pos()))
+								}
+							}
+						}
+					}
 				}
 			}
 			r.Check(bad == "", key, c.Pos(in.Pos()), "the stored pointer is allocated inside the loop", bad)
